@@ -68,6 +68,11 @@ print('CONFIRMED' if abs(cond)>1e-9 or abs(sum(gs)-1)>1e-9 else 'NOT-CONFIRMED')
 
 def run(chk):
     loader.install()
+    # "undoing a step with the opposite step": a backward symplectic propagation must iterate the step map with NEGATIVE
+    # steps from the given state (obligation shared with C10: same real _propagate_dynsys / integrate())
+    from contracts import C10 as _c10
+    chk.under_contract(SY + ":_ExtendedSymplectic.integrate")
+    _c10._times(chk, only={("symplectic", 1), ("symplectic", -1)})
     chk.under_contract(SY + ":_get_tao_omega", SY + ":_phi_H_a_update_poly", SY + ":_phi_H_b_update_poly",
                        SY + ":_phi_omega_H_c_update_poly", SY + ":_recursive_update_poly", SY + ":_integrate_symplectic")
     chk.assume("A1 float=real", "A5 numba compiles Python semantics",
@@ -381,6 +386,49 @@ def run(chk):
                 if k + 1 < 3:
                     for i in range(12):
                         require_identity(red, rec[k + 1][3][i], nk[i], key_prefix="extended state not carried across steps")
+        def th_event_driver():
+            # the event-enabled twin, with an event that never fires: the same step map must be iterated on ONE extended
+            # state (Tao's map is symplectic on the extended space; re-lifting (Q,P) -> (Q,P,Q,P) every step is not)
+            rec = []
+            orig = (sym._recursive_update_poly, sym._eval_hamiltonian_derivative, sym._event_crossed)
+            fresh = iter(range(100))
+
+            def stub(q, ts, o, w, j, c):
+                k = next(fresh)
+                rec.append((val(ts), o, val(w), vals(q), j, c))
+                q[:] = xarr(sp.symbols("m%d_0:12" % k, real=True))
+            sym._recursive_update_poly = stub
+            sym._eval_hamiltonian_derivative = lambda Q, P, j, c: xarr([0] * 6)
+            sym._event_crossed = lambda g0, g1, d: False
+            try:
+                y0 = sp.symbols("y0:6", real=True)
+                ts = sp.symbols("T0:4", real=True)
+                co = sp.Symbol("c_om", positive=True)
+                hit, t_hit, y_hit, traj = sym._integrate_symplectic_until_event(
+                    xarr(y0), xarr(ts), "JAC", "CLMO", 4, (lambda t, y: 1.0), 0, 1e-12, 1e-12, X(co))
+            finally:
+                sym._recursive_update_poly, sym._eval_hamiltonian_derivative, sym._event_crossed = orig
+            if hit or len(rec) != 3:
+                raise Refuted("event driver: step count / spurious hit", f"hit={hit}, {len(rec)} steps for 4 grid nodes")
+            first = rec[0][3]
+            for i in range(3):
+                require_identity(red, first[i], y0[i], key_prefix="event driver: Q init")
+                require_identity(red, first[3 + i], y0[3 + i], key_prefix="event driver: P init")
+                require_identity(red, first[6 + i], y0[i], key_prefix="event driver: X init != Q")
+                require_identity(red, first[9 + i], y0[3 + i], key_prefix="event driver: Y init != P")
+            for k in range(3):
+                dt = ts[k + 1] - ts[k]
+                require_identity(red, rec[k][0], dt, key_prefix=f"event driver step {k}: dt")
+                require_identity(red, rec[k][2] * (co * dt) ** 4, 1, key_prefix=f"event driver step {k}: omega != (c*dt)^-order")
+                if k + 1 < 3:
+                    mk = sp.symbols("m%d_0:12" % k, real=True)
+                    for i in range(12):
+                        require_identity(red, rec[k + 1][3][i], mk[i],
+                                         key_prefix="event driver: extended state (Q,P,X,Y) not carried across steps")
+        chk.obl("_integrate_symplectic_until_event (event never fires): same iteration as _integrate_symplectic - X=Q, Y=P "
+                "initially, dt and omega per step, ONE extended state carried across steps", "K2 wiring (3 steps, symbolic grid)",
+                [SY + ":_integrate_symplectic_until_event"], "B3 sympy normal form", th_event_driver)
+
         chk.obl("_integrate_symplectic: trajectory[0]==y0, X=Q,Y=P initially, trajectory[i+1]=(Q,P) after one step with "
                 "dt=t[i+1]-t[i], omega=(c dt)^-order, extended state carried", "K2 wiring (3 steps, symbolic grid)",
                 [SY + ":_integrate_symplectic"], "B3 sympy normal form", th_driver)
